@@ -33,7 +33,7 @@ type Relation struct {
 	componentType reflect.Type // Component type of the relation
 	target        Entity       // Target entity of the relation
 	component     ID           // Component ID of the relation
-	index         uint8        // Component index of the relation in a mapper or query
+	index         int16        // Component index of the relation in a mapper or query
 }
 
 // Rel creates a new [Relation] for a component type.
@@ -45,7 +45,7 @@ func Rel[C any](target Entity) Relation {
 	return Relation{
 		target:        target,
 		componentType: reflect.TypeFor[C](),
-		index:         255,
+		index:         -1,
 	}
 }
 
@@ -60,7 +60,7 @@ func Rel[C any](target Entity) Relation {
 // For component IDs, use [RelID].
 func RelIdx(index int, target Entity) Relation {
 	return Relation{
-		index:  uint8(index),
+		index:  int16(index),
 		target: target,
 	}
 }
@@ -72,7 +72,7 @@ func RelID(id ID, target Entity) Relation {
 	return Relation{
 		target:    target,
 		component: id,
-		index:     255,
+		index:     -1,
 	}
 }
 
@@ -83,7 +83,7 @@ func RelID(id ID, target Entity) Relation {
 //
 // Modifies the Relation to use an ID.
 func (r *Relation) relationIDForUnsafe(world *World) relationID {
-	if r.index < 255 {
+	if r.index >= 0 {
 		panic("relations created with RelIdx can't be used in the unsafe API, use RelID or Rel instead")
 	}
 	if r.componentType != nil {
@@ -98,7 +98,7 @@ func (r *Relation) relationIDForUnsafe(world *World) relationID {
 
 // id returns the component ID of this Relation.
 func (r *Relation) id(ids []ID, world *World) ID {
-	if r.index < 255 {
+	if r.index >= 0 {
 		return ids[r.index]
 	}
 	if r.componentType != nil {
